@@ -225,6 +225,12 @@ def _act(self, out):
         raise SystemExit(3)
     if out == 'kbd':
         raise KeyboardInterrupt
+    if isinstance(out, list) and out[0] == 'first_only':
+        # goes wrong the first time it is executed in this process and never again (a test that depends on a cold cache)
+        key = ('first_only', id(self.__class__), self._testMethodName)
+        n = _attempts.get(key, 0)
+        _attempts[key] = n + 1
+        return _act(self, out[1] if n == 0 else 'ok')
     if isinstance(out, list) and out[0] == 'die':
         if _resume_layer():
             _die(out[1])
